@@ -76,6 +76,34 @@ def main(tier):
                 ms = sched.model_schedule(executed, lines)
                 reqs.append('(threads new %d (%s))' % (nth, ' '.join(str(t) for t in ms)))
                 impl.append(' '.join(letters))
+        # threads printing values that share sub-objects: the cycle-detection state is per call
+        nshared = 0
+        sh_cases = []
+        for first in (0, 1):
+            for n in range(1, 70 if tier == 'quick' else 140):
+                sh_cases.append((2, [first] * n + [1 - first] * 400))      # one preemption, then the other runs to its end
+        for _ in range(300 if tier == 'quick' else 5000):
+            nth = r.choice([2, 2, 3])
+            s, last = [], None
+            for _k in range(r.randint(2, 7)):
+                t = r.choice([x for x in range(nth) if x != last])
+                s += [t] * r.randint(1, 40)
+                last = t
+            sh_cases.append((nth, s))
+        for nth, s in sh_cases:
+            cfgs = [{}] * nth if nshared % 2 == 0 else [dict(width=30 + 10 * i) for i in range(nth)]
+            res, ref = sched.run_shared(nth, list(s), cfgs)
+            letters = [outcome_letter(res[i], ref[i]) for i in range(nth)]
+            nshared += 1
+            run.count(1)
+            if any(x != 'P' for x in letters):
+                viol += 1
+                if viol <= 3:
+                    run.violation({'kind': 'shared', 'threads': nth, 'schedule': s, 'cfgs': cfgs, 'outcomes': letters,
+                                   'detail': 'threads printing values that share sub-objects: under this interleaving a '
+                                             'thread raised or returned something else than the sequential text',
+                                   'results': [str(x)[:200] for x in res], 'expected': ref})
+        run.coverage['shared_object_schedules'] = nshared
         dis = 0
         if reqs:
             out = run_driver(reqs, shards=1)
@@ -97,6 +125,9 @@ def main(tier):
             'random interleavings with up to 5 context switches. Oracle: every thread returns exactly the sequential '
             'text, no exception, no warning. For runs on the class itself the recorded line order is projected on the '
             "model's steps and the extracted interleaving model is run on that schedule; outcomes compared. "
+            'Also (oracle only): 2-3 threads printing values that SHARE sub-objects, gated on the line events of '
+            '_run_pretty (where visits start and end): every single-preemption schedule up to 70 (thorough: 140) lines '
+            'and seeded random interleavings; same or different widths per thread. '
             'non-trivial = runs in which both/all threads executed traced lines before the drain')
     return run.finish()
 
@@ -107,6 +138,11 @@ def replay(path):
     if 'schedule' not in p:
         print(json.dumps(p, indent=1)[:3000])
         return 1
+    if p.get('kind') == 'shared':
+        res, ref = sched.run_shared(p['threads'], p['schedule'], p['cfgs'])
+        letters = [outcome_letter(res[i], ref[i]) for i in range(p['threads'])]
+        print(letters, [str(x)[:150] for x in res])
+        return 0 if all(x == 'P' for x in letters) else 1
     res, ref, _ex = sched.run_schedule(p['threads'], p['schedule'], depth=p.get('subclass_depth', 0))
     letters = [outcome_letter(res[i], ref[i]) for i in range(p['threads'])]
     print(letters, [str(x)[:150] for x in res])
